@@ -963,8 +963,7 @@ class Context:
                 # The result should be a function expression wrapped in a program
                 # We need to extract the function from the bytecode
                 # Execute the expression to get the function object
-                vm = VM(self.memory_limit, self.time_limit)
-                vm.globals = self._globals
+                vm = self._nested_vm()
                 result = vm.run(bytecode_module)
 
                 if isinstance(result, JSFunction):
@@ -972,6 +971,8 @@ class Context:
                 else:
                     # Fallback: return a simple empty function
                     return JSFunction("anonymous", params, bytes(), {})
+            except (TimeLimitError, MemoryLimitError):
+                raise
             except Exception as e:
                 from .errors import JSError
 
@@ -1102,9 +1103,10 @@ class Context:
                 compiler = Compiler()
                 bytecode_module = compiler.compile(ast)
 
-                vm = VM(ctx.memory_limit, ctx.time_limit)
-                vm.globals = ctx._globals
+                vm = ctx._nested_vm()
                 return vm.run(bytecode_module)
+            except (TimeLimitError, MemoryLimitError):
+                raise
             except Exception as e:
                 from .errors import JSError
 
@@ -1234,6 +1236,18 @@ class Context:
             self._current_vm = None
 
         return self._to_python(result)
+
+    def _nested_vm(self) -> VM:
+        """Create a VM for eval()/Function() code run from inside a running script.
+
+        It shares the globals and keeps the deadline of the evaluation that is
+        in progress, so nested code cannot restart the clock.
+        """
+        vm = VM(self.memory_limit, self.time_limit)
+        vm.globals = self._globals
+        if self._current_vm is not None:
+            vm.start_time = self._current_vm.start_time
+        return vm
 
     def _call_function(self, func: JSFunction, args: list) -> Any:
         """Call a JavaScript function with the given arguments.
